@@ -207,6 +207,9 @@ func (g *gen) sFunc(fc *fctx) []Stmt {
 	if g.feat("closure") && g.ch(12) == 0 {
 		return g.sHighRegister(fc)
 	}
+	if g.feat("closure") && g.feat("shadow") && g.ch(12) == 0 {
+		return g.sShadowedUpvalueCapture(fc)
+	}
 	g.use("closure")
 	if g.feat("factory") && g.ch(3) == 0 && fc.level < 2 {
 		return g.sFactory(fc)
@@ -646,7 +649,75 @@ func (g *gen) sHost(fc *fctx) []Stmt {
 	return append(pre, &Call{Names: []string{a, b}, Fn: callee, Args: args}, g.emitVars("hc", a, b))
 }
 
+// sRaisingTostring: a __tostring metamethod that raises, reached through library functions (tostring, string.format)
+// under a protected call: the error must be delivered (tostring) or must not occur at all (gopher-lua's
+// string.format does not consult __tostring), and the call depth is what it was.
+func (g *gen) sRaisingTostring(fc *fctx) []Stmt {
+	g.use("raising_tostring_under_library_functions")
+	g.cost(40)
+	mt, h, ob, sv, ok, r, ty, ok2, r2 := g.fresh("mt"), g.fresh("mh"), g.fresh("ob"), g.fresh("sn"), g.fresh("ok"), g.fresh("r"), g.fresh("ty"), g.fresh("ok"), g.fresh("r")
+	g.prog.NFuncs++
+	var hbody []Stmt
+	if g.ch(3) == 0 {
+		hbody = []Stmt{&Return{Exprs: []Expr{Str{"TS"}}}}
+	} else {
+		hbody = []Stmt{&Call{Fn: Var{"emit"}, Args: []Expr{Str{h}}}, &Call{Fn: Var{"error"}, Args: []Expr{Str{"tsfail"}}}}
+	}
+	hd := &FuncDef{ID: g.prog.NFuncs, Params: []string{g.fresh("t")}, Body: hbody}
+	return []Stmt{&Do{Body: []Stmt{
+		&Local{Names: []string{mt}, Exprs: []Expr{TableCons{}}},
+		&Local{Names: []string{h}, Exprs: []Expr{Func{hd}}},
+		&Assign{Targets: []Expr{Index{Var{mt}, Str{"__tostring"}}}, Exprs: []Expr{Var{h}}},
+		&Call{Names: []string{ob}, Fn: Var{"setmetatable"}, Args: []Expr{TableCons{}, Var{mt}}},
+		&Call{Names: []string{sv}, Fn: Var{"snap"}},
+		&Call{Names: []string{ok, r}, Fn: Var{"pcall"}, Args: []Expr{Var{"strformat"}, Str{"%s"}, Var{ob}}},
+		&Call{Fn: Var{"snap"}, Args: []Expr{Var{sv}}},
+		&Call{Names: []string{ty}, Fn: Var{"type"}, Args: []Expr{Var{r}}},
+		&Call{Fn: Var{"emit"}, Args: []Expr{Str{"sf"}, Var{ok}, Var{ty}}},
+		&Call{Names: []string{sv}, Fn: Var{"snap"}},
+		&Call{Names: []string{ok2, r2}, Fn: Var{"pcall"}, Args: []Expr{Var{"tostring"}, Var{ob}}},
+		&Call{Fn: Var{"snap"}, Args: []Expr{Var{sv}}},
+		&Call{Fn: Var{"emit"}, Args: []Expr{Str{"ts"}, Var{ok2}, Var{r2}}},
+	}}}
+}
+
+// sShadowedUpvalueCapture: a function uses a variable of an enclosing function, then declares a local of the same
+// name, then creates a closure that mentions the name: the closure captures the function's own local.
+func (g *gen) sShadowedUpvalueCapture(fc *fctx) []Stmt {
+	g.use("closure_over_a_local_that_shadows_an_upvalue")
+	g.cost(30)
+	f, a, gf, r1, x1, x2, x3, gg, x4 := g.fresh("F"), g.fresh("a"), g.fresh("g"), g.fresh("r"), g.fresh("x"), g.fresh("x"), g.fresh("x"), g.fresh("g"), g.fresh("x")
+	g.prog.NFuncs++
+	gd := &FuncDef{ID: g.prog.NFuncs, Body: []Stmt{
+		&Assign{Targets: []Expr{Var{"v0"}}, Exprs: []Expr{Bin{"+", Var{"v0"}, Num{1}}}}, &Return{Exprs: []Expr{Var{"v0"}}}}}
+	g.prog.NFuncs++
+	shadow := Stmt(&Local{Names: []string{"v0"}, Exprs: []Expr{Num{float64(50 + g.ch(5))}}})
+	var body []Stmt
+	body = append(body, &Local{Names: []string{a}, Exprs: []Expr{Bin{"+", Var{"v0"}, Num{1}}}}) // the outer v0
+	mk := []Stmt{shadow, &Local{Names: []string{gf}, Exprs: []Expr{Func{gd}}}, &Call{Names: []string{r1}, Fn: Var{gf}}}
+	if g.ch(2) == 0 {
+		// the shadowing local lives in an inner block; the closure escapes through a local of the function
+		esc := g.fresh("ge")
+		body = append(body, &Local{Names: []string{esc, r1}, Exprs: []Expr{Nil{}, Num{0}}},
+			&Do{Body: []Stmt{shadow, &Local{Names: []string{gf}, Exprs: []Expr{Func{gd}}}, &Call{Targets: []Expr{Var{r1}}, Fn: Var{gf}}, &Assign{Targets: []Expr{Var{esc}}, Exprs: []Expr{Var{gf}}}}},
+			&Return{Exprs: []Expr{Var{r1}, Var{"v0"}, Var{esc}, Var{a}}})
+	} else {
+		body = append(body, mk...)
+		body = append(body, &Return{Exprs: []Expr{Var{r1}, Var{"v0"}, Var{gf}, Var{a}}})
+	}
+	fd := &FuncDef{ID: g.prog.NFuncs, Body: body}
+	return []Stmt{&Do{Body: []Stmt{
+		&Local{Names: []string{f}, Exprs: []Expr{Func{fd}}},
+		&Call{Names: []string{x1, x2, gg, x4}, Fn: Var{f}},
+		&Call{Names: []string{x3}, Fn: Var{gg}},
+		&Call{Fn: Var{"emit"}, Args: []Expr{Str{"shu"}, Var{x1}, Var{x2}, Var{x3}, Var{x4}, Var{"v0"}}},
+	}}}
+}
+
 func (g *gen) sMeta(fc *fctx) []Stmt {
+	if g.feat("pcall") && g.feat("error") && g.ch(6) == 0 {
+		return g.sRaisingTostring(fc)
+	}
 	g.use("meta")
 	mt, h, obj, r := g.fresh("mt"), g.fresh("mh"), g.fresh("ob"), g.fresh("mr")
 	g.prog.NFuncs++
